@@ -39,7 +39,7 @@ def strategy(tier, mode=None):
         elif mode == "hessianB":
             c = draw(lossgen.loss_case(kinds=["Square"], weights=False, target_param="any-order", max_states=3, n_times=(3, 6), catalogue=1))
         else:
-            c = draw(lossgen.loss_case(kinds=["Square"], weights=True, target_param="any-order", max_states=3, n_times=(3, 8), catalogue=1))
+            c = draw(lossgen.loss_case(kinds=["Square"], weights=True, target_param="any-order", max_states=3, n_times=(2, 8), catalogue=1))
         c["part"] = "jtj" if mode in (None, "jtj") else "hessian"
         if c["part"] == "jtj" and c["model"].get("family") in ("chain", "epidemic") and draw(st.integers(0, 2)) == 0:
             # amounts measured in small units: states (and hence sensitivities) of order 1e-5, JTJ entries of order 1e-10
